@@ -76,13 +76,26 @@ func genChunk(t *rapid.T, ps *poolSet, shape string) []rune {
 		if chance(t, 70) {
 			add(pick(t, ps.all))
 		}
-	case "spaces": // X SP* Y with the classes of LB8, LB14-LB17
-		add(L("OP", "OP+ea", "QU", "CL", "CP", "CP+ea", "B2", "ZW", "AL", "SP", "CM", "ZWJ"))
+	case "spaces": // X SP* Y with the class pairs of LB8, LB14-LB17
+		switch rapid.IntRange(0, 6).Draw(t, "sp") {
+		case 0:
+			add(L("OP", "OP+ea"))
+		case 1:
+			add(L("QU"))
+		case 2:
+			add(L("CL", "CP", "CP+ea"))
+		case 3:
+			add(L("B2"))
+		case 4:
+			add(L("ZW"))
+		default:
+			add(L("AL", "SP", "CM", "ZWJ", "BA", "HY", "GL"))
+		}
 		attach(25)
 		for k := small.Draw(t, "n"); k > 0; k-- {
 			add(L("SP"))
 		}
-		add(L("OP", "NS", "B2", "AL", "CM", "ZWJ", "GL", "QU", "CL", "ID"))
+		add(L("OP", "NS", "B2", "AL", "CM", "ZWJ", "GL", "QU", "CL", "ID", "B2", "NS"))
 	case "numeric": // (PR|PO)? (OP|HY)? NU (NU|SY|IS)* (CL|CP)? (PR|PO)? ...
 		if chance(t, 50) {
 			add(L("PR", "PO"))
@@ -261,6 +274,7 @@ func TestPropRandom(t *testing.T) {
 			ev.Sample(mkCase(algoAll, text))
 		}
 	})
+	surveyReport(t)
 }
 
 // ---- real text ----
@@ -332,6 +346,7 @@ func TestPropRealText(t *testing.T) {
 		}
 		ev.Case(nt, string(text), label)
 	})
+	surveyReport(t)
 }
 
 // ---- 4. history independence ----
